@@ -1483,6 +1483,7 @@ static void vi(void)
 		int orow = xrow;
 		char *opath = ex_path();	/* do not dereference; to detect buffer changes */
 		int mv, n, ru;
+		int ccol;	/* the column of the cursor */
 		term_cmd(&n);
 		vi_arg2 = 0;
 		vi_ybuf = vi_yankbuf();
@@ -1795,10 +1796,11 @@ static void vi(void)
 		vi_wfix();
 		if (mod)
 			xcol = vi_off2col(xb, xrow, xoff);
-		if (xcol >= xleft + xcols)
-			xleft = xcol - xcols / 2;
-		if (xcol < xleft)
-			xleft = xcol < xcols ? 0 : xcol - xcols / 2;
+		ccol = ren_cursor(lbuf_get(xb, xrow), xcol);
+		if (ccol >= xleft + xcols)
+			xleft = ccol - xcols / 2;
+		if (ccol < xleft)
+			xleft = ccol < xcols ? 0 : ccol - xcols / 2;
 		vi_wait();
 		term_record();
 		ru = (xru & 1) || ((xru & 2) && w_cnt > 1) || ((xru & 4) && opath != ex_path());
